@@ -78,6 +78,11 @@ def check_state(rec, B, tg, tp, r, rng, nsamp=40, uniform=False):
         ok2, xs = rec.attempt("sample.expect", sc, lambda: S.expect(L))
         if ok2:
             rec.check("sample.expect", bool(np.all(np.asarray(xs) == 1)), sc, nt, expected="all +1", observed=np.asarray(xs)[:12])
+    for n0 in (0, 1):
+        ok, L0 = rec.attempt("sample.size", [sc, n0], lambda: S.sample(n0))
+        if ok:
+            sg0, sp0 = B.gsps(L0)
+            rec.check("sample.size", sg0.shape == (n0, 2 * N) and all(O.group_contains(cg, g) == p for g, p in zip(sg0, sp0)), [sc, n0], False)
     # ---- uniformity over the 2^k group elements
     if uniform and 1 <= k <= 6:
         M = 2 ** k
